@@ -139,6 +139,76 @@ theorem C17_v1_redeem_round_down {env : Env} (he : EnvPos env) {s s' : State} {t
   simp only []
   rw [hout, afterFee_eq]
 
+/-- **minted GLP follows price × amount / value per share up to the round-down steps, and only downwards**: with
+    `p = P/10³⁰` (USD per token), `ideal = (a − a·fee/10⁴)·p·10¹⁸` USDG wei and value per share `⌊aum/10¹²⌋ / supply`,
+    the USDG credited is in `(ideal − 10¹⁸/10^dec − 1, ideal]` and the GLP wei minted is in `(usdg·supply/⌊aum/10¹²⌋ − 1, usdg·supply/⌊aum/10¹²⌋]`. -/
+theorem C17_v1_mint_value_per_share {env : Env} (he : EnvPos env) {s s' : State} {tok : String} {dec : Nat} {a g : Rat}
+    (h : buyGlp NumCtx.exact env s tok dec a = (.ok g, s')) :
+    ∃ r fee br usdg, env.row? tok = some r ∧ feeBps NumCtx.exact env tok (usdgOf a dec r.price) true = .ok (fee, br) ∧
+      0 ≤ fee ∧ fee ≤ 85 ∧
+      (let ideal := (a - a * fee / 10000) * (r.price / 10 ^ 30) * 10 ^ 18
+       usdg ≤ ideal ∧ ideal < usdg + 10 ^ 18 / 10 ^ dec + 1) ∧
+      g * 10 ^ 18 ≤ usdg * env.glpSupply / aumU env ∧ usdg * env.glpSupply / aumU env < g * 10 ^ 18 + 1 := by
+  obtain ⟨ha, mint, fee, br, w, hadd, _, hg, _⟩ := Gmx.buyGlp_ok h
+  obtain ⟨r, hr, hfee, haum, hmint⟩ := addLiquidity_ok hadd
+  have hP : 0 < r.price := he.price r (row_mem hr)
+  obtain ⟨hf0, hf1⟩ := feeBps_bounds he.toEnvNonneg hfee
+  obtain ⟨haf0, _⟩ := afterFee_bounds ha hf0 hf1
+  have hA : 0 < aumU env := lt_of_le_of_ne (Gmx.aumU_nonneg he) (Ne.symm haum)
+  have hS := he.glpSupply
+  set af := afterFee NumCtx.exact a fee with haf
+  have hafeq : af = a - a * fee / 10000 := afterFee_eq a fee
+  have hd : (0 : Rat) < 10 ^ dec := by positivity
+  refine ⟨r, fee, br, usdgOf af dec r.price, hr, hfee, hf0, hf1, ?_, ?_, ?_⟩
+  · simp only []
+    rw [← hafeq]
+    refine ⟨usdgOf_le haf0 (le_of_lt hP), ?_⟩
+    -- two round-downs lose less than 10¹⁸/10^dec + 1 USDG wei
+    unfold usdgOf
+    have hx : 0 ≤ af * 10 ^ dec * r.price / 10 ^ 30 := by positivity
+    have h1 := quantDown0_gt hx
+    have h0 := quantDown0_nonneg hx
+    have hy : 0 ≤ quantDown 0 (af * 10 ^ dec * r.price / 10 ^ 30) * 10 ^ 18 / 10 ^ dec := by positivity
+    have h2 := quantDown0_gt hy
+    have e : af * (r.price / 10 ^ 30) * 10 ^ 18 = (af * 10 ^ dec * r.price / 10 ^ 30) * 10 ^ 18 / 10 ^ dec := by field_simp
+    rw [e]
+    have h3 : (af * 10 ^ dec * r.price / 10 ^ 30) * 10 ^ 18 / 10 ^ dec
+        < (quantDown 0 (af * 10 ^ dec * r.price / 10 ^ 30) + 1) * 10 ^ 18 / 10 ^ dec := by
+      apply div_lt_div_of_pos_right _ hd
+      exact mul_lt_mul_of_pos_right h1 (by positivity)
+    have e2 : (quantDown 0 (af * 10 ^ dec * r.price / 10 ^ 30) + 1) * 10 ^ 18 / 10 ^ dec
+        = quantDown 0 (af * 10 ^ dec * r.price / 10 ^ 30) * 10 ^ 18 / 10 ^ dec + 10 ^ 18 / 10 ^ dec := by ring
+    linarith
+  · have hz : 0 ≤ usdgOf af dec r.price * env.glpSupply / aumU env := by
+      have := usdgOf_nonneg (dec := dec) haf0 (le_of_lt hP); positivity
+    have : g * 10 ^ 18 = mint := by rw [hg]; field_simp
+    rw [this, hmint]; exact quantDown0_le hz
+  · have hz : 0 ≤ usdgOf af dec r.price * env.glpSupply / aumU env := by
+      have := usdgOf_nonneg (dec := dec) haf0 (le_of_lt hP); positivity
+    have : g * 10 ^ 18 = mint := by rw [hg]; field_simp
+    rw [this, hmint]; exact quantDown0_gt hz
+
+/-- **redeemed tokens follow GLP × value per share / price, net of the fee, up to one USDG wei, and only downwards** -/
+theorem C17_v1_redeem_value_per_share {env : Env} (he : EnvPos env) {s s' : State} {tok : String} {dec : Nat} {ga out : Rat}
+    (h : sellGlp NumCtx.exact env s tok dec ga = (.ok out, s')) :
+    let g := if ga = 0 then s.glp else ga
+    ∃ r fee br U, env.row? tok = some r ∧ feeBps NumCtx.exact env tok U false = .ok (fee, br) ∧ 0 ≤ fee ∧ fee ≤ 85 ∧
+      U ≤ g * 10 ^ 18 * (aumU env / env.glpSupply) ∧ g * 10 ^ 18 * (aumU env / env.glpSupply) < U + 1 ∧
+      out = U / 10 ^ 18 / (r.price / 10 ^ 30) * (1 - fee / 10000) := by
+  intro g
+  obtain ⟨hg0, _, fee, br, hrem, _⟩ := Gmx.sellGlp_ok (g := g) rfl h
+  obtain ⟨r, hr, hsup, hpne, hfee, hout⟩ := removeLiquidity_ok hrem
+  have hA := Gmx.aumU_nonneg he
+  have hS := he.glpSupply
+  obtain ⟨hf0, hf1⟩ := feeBps_bounds he.toEnvNonneg hfee
+  have hy : 0 ≤ g * 10 ^ 18 / env.glpSupply * aumU env := by positivity
+  have e : g * 10 ^ 18 * (aumU env / env.glpSupply) = g * 10 ^ 18 / env.glpSupply * aumU env := by ring
+  refine ⟨r, fee, br, quantDown 0 (g * 10 ^ 18 / env.glpSupply * aumU env), hr, hfee, hf0, hf1, ?_, ?_, ?_⟩
+  · rw [e]; exact quantDown0_le hy
+  · rw [e]; exact quantDown0_gt hy
+  · rw [hout, afterFee_eq]
+    have hd : (10 : Rat) ^ dec ≠ 0 := by positivity
+    field_simp
 /-- **same-bar round trip**: buying GLP with `a` tokens and selling any part `g' ≤ g` of the minted GLP for the same
     token in the same bar returns at most `a`. -/
 theorem C17_v1_roundtrip_no_profit {env : Env} (he : EnvPos env) {s s1 s2 : State} {tok : String} {dec : Nat}
